@@ -13,11 +13,17 @@ CORPUS = os.path.join(VERIF, "corpus", "mt")
 # CVODE KINETICS 1 made a later 5-cell TRANSPORT take 35 s natively).  What does persist on purpose: RATES, SELECTED_OUTPUT
 # 1-3 / USER_PUNCH / USER_PRINT definitions, PRINT options, solutions, EQUILIBRIUM_PHASES 1 (inside transport cell 1).
 ALLDB = ["small.dat", "phreeqc.dat", "pitzer.dat"]
-WORKLOADS = {n: list(ALLDB) for n in ("spec", "kin_rk", "kin_cvode", "transport", "transport_md", "inverse", "basic", "error")}
+WORKLOADS = {n: list(ALLDB) for n in ("spec", "kin_rk", "kin_cvode", "transport", "transport_md", "inverse", "basic", "error", "react", "sticky")}
 DATABASES = list(ALLDB)
 # workloads that execute Phreeqc::transport(): at most ONE thread of a schedule may run them (known finding: transport.cpp keeps
 # its working state in file-scope globals shared by all instances, so two TRANSPORT runs at the same time race and can crash)
 TRANSPORT_WL = ("transport", "transport_md")
+# error-free workloads that leave sticky per-THREAD state behind (errno == ERANGE from libm / strtod range errors in BASIC);
+# errno is the only such state the library ever reads back (parse.cpp get_coef / get_charge / get_num; no setlocale, no
+# floating-point environment, no thread_local anywhere in src/).  Probe on a tree without the errno reset in get_num: each of the
+# 8 variants makes EVERY other workload of the pool fail when it runs on another instance of the same thread in between.
+STICKY_WL = ("sticky",)
+STICKY_EXPR = ["1e5 * EXP(-2000)", "EXP(2000)", "LOG10(1e-300 * 1e-300)", "1e-400", "1e400", "10 ^ 400", "10 ^ -400", "EXP(-745.2) * 1e-10"]
 # small.dat: corpus/mt/small.dat (6 kB, loads in 1 ms) is drawn more often than the two shipped databases
 DB_WEIGHTED = ["small.dat", "small.dat", "small.dat", "phreeqc.dat", "phreeqc.dat", "pitzer.dat"]
 NPARAM = 16
@@ -37,6 +43,7 @@ def params(p):
         "AM2": "%d" % (2 * (1 + p)),
         "K": "%.4f" % (0.001 * (1 + p)),
         "NA2": "%.2f" % (1.5 + 0.02 * (p % 4)),
+        "STK": STICKY_EXPR[p % len(STICKY_EXPR)],
     }
 
 
